@@ -13,7 +13,9 @@ Surface provided (exactly what the repo uses — `grep -n 'courier\\.' ml_metric
     Server(name=None, port=None)   .Bind(name, fn) .Unbind(name) .Start() .Stop() .Join()
                                    .address ('localhost:<port>') .port .has_started
                                    (reachable under `name`, if given, and under `.address`)
-    Client(address, call_timeout=None)
+    Client(address, call_timeout=None)        call_timeout (seconds or timedelta) is enforced in REAL time in
+                                              'threaded' mode only (future fails with code 4); in 'inline' and
+                                              'manual' mode deadlines come from the fault plan / `deliver(fate=)`
         client.<method>(*args, **kw)          blocking: returns the handler's value or raises StatusNotOk
         client.futures.<method>(*args, **kw)  -> concurrent.futures.Future
     StatusNotOk(code, message)     the error of a failed call; `.code == 4` is "deadline exceeded"
